@@ -292,6 +292,12 @@ def run(ctx):
                         continue
                     for a, d, role in (fmt.variadic_bindings(c) or []):
                         if role == 'value':
+                            if d['conv'] == 's':
+                                # a fixed text chosen from constants (an error message picked from a table) is not the id
+                                s4 = Slice(prog)
+                                s4.expr(f, a)
+                                if not s4.calls and not s4.params and not (s4.members & set(spec.get('members') or ())):
+                                    continue
                             convs.append((d['conv'], a, c))
             ok = bool(convs) and all(cv in ('u', 'd', 'i') for cv, a, c in convs)
             chk.ob('Q4', '%s:integer-conversion' % name, ok, convs[0][2].where() if convs else ds.where(), ds.name,
